@@ -1,6 +1,14 @@
 import JominiModel.Model.TextTape
 import JominiModel.Spec.TextTape
 import JominiModel.Proofs.TextTape
+import JominiModel.Proofs.TextTapeWf
+import JominiModel.Proofs.TextTapeCut
+import JominiModel.Proofs.TextTapeInv
+import JominiModel.Proofs.TextTapeScalars
+import JominiModel.Proofs.TextTapeFaithful
+import JominiModel.Proofs.TextTapeTotal
+import JominiModel.Proofs.TextTapeFaithful2
+import JominiModel.Proofs.TextTapeFaithful3
 import JominiModel.Generated.Tables
 /-
 C01 — Text tape mirrors the document's structure regardless of layout.
@@ -50,14 +58,21 @@ example : Blank [32, 59, 13, 10, 35, 99, 123, 10, 9] :=
 
 /-- an optional UTF-8 BOM only sets the flag: the tape (scalar bytes and their positions, which
 the model keeps relative to the end of the input) is the tape of the rest.
-Hypotheses: `d` does not itself start with a second BOM, and the parse of `d` does not hit a
-panic site (the only use is `offset - 1` at offset 0, which shifts with the BOM). -/
-theorem C01_bom (d : Bytes) (hb : hasBom d = false) (hp : parse d ≠ .panic) :
+Hypothesis: `d` does not itself start with a second BOM (only the first one is stripped). -/
+theorem C01_bom (d : Bytes) (hb : hasBom d = false) :
     parse (0xef :: 0xbb :: 0xbf :: d) = (parse d).withBom true :=
-  parse_bom d hb hp
+  parse_bom' d hb
 
 /-- `a=b` -/
-example : hasBom [97, 61, 98] = false ∧ parse [97, 61, 98] ≠ .panic := by decide +kernel
+example : hasBom [97, 61, 98] = false := by decide +kernel
+
+/-- the model is total on every input: it returns a tape or an error — none of its explicit
+panic outcomes (`len()-1`, `offset-1`, `tape[i]`, `split_at`, `&d[1..]`) is reachable and the
+fuel `2|d|+4` is enough (every iteration consumes input or moves from KeyValueSeparator /
+ParseOpen to a state that does). -/
+theorem C01_parse_total (input : Bytes) :
+    (∃ T b, parse input = .ok T b) ∨ (∃ e, parse input = .err e) :=
+  parse_total input
 
 /-
 Full statement (DESIGN §8 C01): `step st (w ++ d) = step st d` at EVERY point where the code
@@ -84,5 +99,137 @@ theorem C01_step_blank_parseopen_open (w rest : Bytes) (hw : Blank w) (st : St) 
     ∃ st', stepParseOpen st (123 :: (w ++ rest)) = .cont st' (123 :: (w ++ rest)) ∧
            stepParseOpen st (123 :: rest) = .cont st' (123 :: rest) :=
   stepParseOpen_open_blank hw st rest
+
+/-
+Full statements (DESIGN §8 C01), for the complete document model (nested objects, arrays, arrays
+of objects, empty containers, headers, parameter blocks, mixed containers, optional `=`):
+  C01_faithful           : parse (render L (lexemes doc)) = .ok (tapeOf doc) false   (up to positions)
+  C01_layout_independent : Layout.Valid L → Layout.Valid L' →
+                             parse (render L ls) = parse (render L' ls)             (up to positions)
+Proved so far: fragment 1 = flat documents (top-level `key op value` fields, all 8 operators,
+quoted scalars with escapes, unquoted scalars, any valid blank layout incl. comments, `;`, CR/LF,
+tight gaps where lexically permitted); fragment 2 = the same with nested non-empty objects of any
+depth as values (`key op { fields }`, incl. `?=` / `!=` on the first field); fragment 3 = values
+are scalars, empty containers `{}`, objects, and arrays of scalars / objects / arrays / empty
+containers, nested to any depth (the structure of save files), fields written with or without
+the optional `=` before `{` (`a={..}` and `a{..}` have the same content), ghost `{}` in key
+position.  Missing fragments: ghost `{}` at the start of a container, headers (`rgb {..}`),
+parameter blocks, object→array mixed containers, `@[..]` variables and unquoted scalars starting
+with `@`, BOM in front of a document (C01_bom covers it separately).  These are decided by the
+correspondence run and the layout/faithfulness oracles.
+-/
+/-- fragment 1 of C01_faithful: a flat document under ANY valid layout parses to a tape that is,
+up to the scalar positions, exactly the document's keys, operators and scalar bytes (quoted vs
+unquoted preserved) in document order. -/
+theorem C01_faithful_flat_partial (fs : List LField) (gt : Bytes) (hv : ValidFlat fs gt)
+    (hb : hasBom (renderFlat fs gt) = false) :
+    ∃ T, parse (renderFlat fs gt) = .ok T false ∧ T.map Tok.erase = contentFlat (fs.map LField.content) :=
+  faithful_flat fs gt hv hb
+
+/-- the same with the positions: the tape is `tapeFlat`, every scalar standing where the layout
+puts it. -/
+theorem C01_faithful_flat_positions_partial (fs : List LField) (gt : Bytes) (hv : ValidFlat fs gt)
+    (hb : hasBom (renderFlat fs gt) = false) :
+    parse (renderFlat fs gt) = .ok (tapeFlat fs gt) false :=
+  parse_flat fs gt hv hb
+
+/-- fragment 1 of C01_layout_independent: two valid layouts of the same flat document (kind and
+amount of blanks, CR/LF, `;`, comments, where the bytes fall relative to the 16-byte blocks)
+give the same tape up to positions. -/
+theorem C01_layout_independent_flat_partial (fs fs' : List LField) (gt gt' : Bytes)
+    (hv : ValidFlat fs gt) (hv' : ValidFlat fs' gt')
+    (hb : hasBom (renderFlat fs gt) = false) (hb' : hasBom (renderFlat fs' gt') = false)
+    (hc : fs.map LField.content = fs'.map LField.content) :
+    ∃ T T', parse (renderFlat fs gt) = .ok T false ∧ parse (renderFlat fs' gt') = .ok T' false ∧
+      T.map Tok.erase = T'.map Tok.erase :=
+  layout_independent_flat fs fs' gt gt' hv hv' hb hb' hc
+
+/-- fragment 2 of C01_faithful: a document of nested objects under ANY valid layout parses to a
+tape that is, up to the scalar positions, exactly the document's content with the object
+boundaries and their `end` links. -/
+theorem C01_faithful_nested_partial (fs : LFields) (gt : Bytes) (hgt : Blank gt) (hv : ValidF fs gt)
+    (hb : hasBom (renderF fs ++ gt) = false) :
+    ∃ T, parse (renderF fs ++ gt) = .ok T false ∧ T.map Tok.erase = ctapeF (contentFs fs) 0 :=
+  faithful_nested fs gt hgt hv hb
+
+/-- fragment 2 of C01_layout_independent. -/
+theorem C01_layout_independent_nested_partial (fs fs' : LFields) (gt gt' : Bytes)
+    (hgt : Blank gt) (hgt' : Blank gt') (hv : ValidF fs gt) (hv' : ValidF fs' gt')
+    (hb : hasBom (renderF fs ++ gt) = false) (hb' : hasBom (renderF fs' ++ gt') = false)
+    (hc : contentFs fs = contentFs fs') :
+    ∃ T T', parse (renderF fs ++ gt) = .ok T false ∧ parse (renderF fs' ++ gt') = .ok T' false ∧
+      T.map Tok.erase = T'.map Tok.erase :=
+  layout_independent_nested fs fs' gt gt' hgt hgt' hv hv' hb hb' hc
+
+/-- fragment 3 of C01_faithful: fields whose values are scalars, empty containers, objects and
+arrays (of scalars, objects, arrays, empty containers) nested to any depth, under ANY valid
+layout: the tape is, up to the scalar positions, exactly the document's keys, operators, scalar
+bytes (quoted vs unquoted), container kinds (object / array) and nesting (`end` links). -/
+theorem C01_faithful_tree_partial (fs : JFields) (gt : Bytes) (hgt : Blank gt) (hv : JValidF fs gt)
+    (hb : hasBom (jrenderF fs ++ gt) = false) :
+    ∃ T, parse (jrenderF fs ++ gt) = .ok T false ∧ T.map Tok.erase = ktapeF (kcontentF fs) 0 :=
+  faithful_tree fs gt hgt hv hb
+
+/-- fragment 3 of C01_layout_independent. -/
+theorem C01_layout_independent_tree_partial (fs fs' : JFields) (gt gt' : Bytes)
+    (hgt : Blank gt) (hgt' : Blank gt') (hv : JValidF fs gt) (hv' : JValidF fs' gt')
+    (hb : hasBom (jrenderF fs ++ gt) = false) (hb' : hasBom (jrenderF fs' ++ gt') = false)
+    (hc : kcontentF fs = kcontentF fs') :
+    ∃ T T', parse (jrenderF fs ++ gt) = .ok T false ∧ parse (jrenderF fs' ++ gt') = .ok T' false ∧
+      T.map Tok.erase = T'.map Tok.erase :=
+  layout_independent_tree fs fs' gt gt' hgt hgt' hv hv' hb hb' hc
+
+/-- the hypotheses are satisfiable: `a={1 {b=c} {}} d={{x}}⏎`. -/
+example : JValidF exampleTree [10] ∧ Blank [10] ∧ hasBom (jrenderF exampleTree ++ [10]) = false :=
+  exampleTree_valid
+
+/-- the hypotheses are satisfiable: `a={b="x" c<{d=e}}⏎`. -/
+example : ValidF exampleNested [10] ∧ Blank [10] ∧ hasBom (renderF exampleNested ++ [10]) = false :=
+  exampleNested_valid
+
+/-- and its parse is the tape the theorem predicts. -/
+example : parse (renderF exampleNested ++ [10]) = .ok (tapeF exampleNested 0 [10]) false := by
+  decide +kernel
+
+/-- the hypotheses are satisfiable: `a ?= #x⏎"b\"c"⏎`. -/
+example : ValidFlat exampleFlat [10] ∧ hasBom (renderFlat exampleFlat [10]) = false := exampleFlat_valid
+
+/-! ### C06 (text half) and C19 (text lexemes): stated in `Proofs/TextTapeWf.lean` /
+`Proofs/TextTapeCut.lean` under their own names, repeated here so that this check audits them. -/
+
+/-- `wfTextTape` (the checker `wftext` runs on every parsed tape) is the declarative
+`WfTextTape`: links both ways, no index 0, no crossing containers, scalars are input
+sub-slices with strictly increasing starts. -/
+theorem C01_C06_text_checker_sound (input : Bytes) (toks : List Tok) :
+    wfTextTape input toks = true ↔ WfTextTape input toks :=
+  C06_text_checker_sound input toks
+
+/-- C06, text half, at full strength: whenever the parser model succeeds, on ANY input (well
+formed or not, any layout, truncated, random bytes), the tape satisfies `WfTextTape`.  Proof: an
+invariant on the shapes of the tape tokens (open containers form a strictly decreasing chain
+through their `end` slots down to 0, everything else is closed, linked both ways and nested)
+preserved by every transition incl. the EOF auto-close and the `MixedContainer` insert, plus an
+invariant on the scalars (sub-slices of the input, strictly decreasing distance to the end). -/
+theorem C01_C06_text_inv (input : Bytes) (T : List Tok) (b : Bool) (h : parse input = .ok T b) :
+    WfTextTape input T :=
+  C06_text_inv input T b h
+
+/-- a quoted scalar obtained from a truncated input is the scalar of the whole input at that
+place (never extended), and its closing quote lies inside the prefix. -/
+theorem C01_C19_quote_not_extended (d : Bytes) (k : Nat) (s rest : Bytes)
+    (h : parseQuoteScalar (d.take k) = .ok (s, rest)) :
+    parseQuoteScalar d = .ok (s, rest ++ d.drop k) ∧ s.length + 2 ≤ k :=
+  C19_quote_not_extended d k s rest h
+
+/-- an unquoted scalar obtained from a truncated input is a prefix of the scalar of the whole
+input at that place, equal to it unless it reaches the cut, and never spans a boundary byte. -/
+theorem C01_C19_scalar_not_merged (d : Bytes) (k : Nat) (s rest : Bytes)
+    (h : splitAtScalar (d.take k) = some (s, rest)) :
+    ∃ s' rest', splitAtScalar d = some (s', rest') ∧ s <+: s' ∧ (s = s' ∨ rest = []) ∧
+      ∀ i (hi : i < s.length), 0 < i → isBoundary s[i] = false :=
+  C19_scalar_not_merged C01_tables_sse_eq_tab d k s rest h
+
+/-- `ab=c` cut after `a`. -/
+example : splitAtScalar (([97, 98, 61, 99] : Bytes).take 1) = some ([97], []) := by decide +kernel
 
 end Jomini.Props.C01
